@@ -1,12 +1,73 @@
 (* C02 -- Curated layout follows the Pretext edits to within three texel widths.
    Only statements, each closed by [exact] of a lemma from Proofs/.  PARTIAL:
-   proved here are the ingredients named in the property's anchors (error
-   length, exact cuts at the bait coordinate with strand-aware trimming, the
-   keep-flag order).  The global statement over a whole edit script (affine
-   core map, orientation, Pretext order, completion) is decided by the
-   correspondence of the whole pipeline model and the oracle on every run. *)
+   proved end to end is the property's last clause for the simplest complete
+   edit script (one scaffold cut once, the two pieces oriented and placed at
+   will): a cut at least three error lengths inside a contig splits it exactly
+   at the Pretext coordinate, with the margin shown to be sharp; plus the
+   ingredients named in the anchors (error length, exact trims, keep-flag
+   order).  The statement over arbitrary edit scripts (several cuts, regrouping,
+   Pretext order) is decided by the correspondence of the whole pipeline model
+   and the oracle on every run. *)
 From Tola Require Import Py.Base Model.Fragment Model.Scaffold Model.Lookup Model.OverlapResult
   Model.Namer Model.Remap Proofs.NullMapAndCuts.
+From Tola Require Proofs.TwoPieceCut.
+
+(* END TO END through remap_to_input (lookups, overhang resolver, cuts,
+   left-overs), for every texel size n/d, every scaffold pr ++ [f] ++ po of
+   distinct well-formed contigs (gaps anywhere, pr / po possibly empty, f on
+   either strand), every cut coordinate k with both pieces of f at least
+   3 * error_length long, every orientation s1, s2 of the two Pretext
+   scaffolds and every rounding E of the scaffold end by less than a texel:
+   exactly one cut is counted, nothing is left over, and the two results are
+   (oriented as chosen) pr ++ [left piece of f] and [right piece of f] ++ po,
+   f being split exactly at scaffold coordinate k -- the left piece of a
+   reverse-strand contig is its high end.  The pieces carry the tag "Cut". *)
+Theorem C02_two_piece_cut : forall g prefix n d name pr f po k E s1 s2 p1 p2,
+  0 <= n -> 0 < d ->
+  let rows := pr ++ RF f :: po in
+  let err := error_length (n, d) in
+  let Sp := rows_len pr in
+  Proofs.TwoPieceCut.sc_ok (name, rows) ->
+  NoDup (map key_of (frags_of rows)) ->
+  Sp + 3 * err <= k ->
+  k + 3 * err <= Sp + f_len f ->
+  rows_len (removelast rows) < E -> d * (rows_len rows - E) < n ->
+  exists rs ra rb,
+    remap_to_input repaired g prefix (n, d) [(name, rows)]
+       [(p1, [RF (mkFrag (-1) name 1 k s1 [])]); (p2, [RF (mkFrag (-1) name (k+1) E s2 [])])] = Ok rs
+    /\ b_cuts (rs_b rs) = 1 /\ rs_left rs = []
+    /\ mapM (get_ovr (b_store (rs_b rs))) (b_added (rs_b rs)) = Ok [ra; rb]
+    /\ map Proofs.TwoPieceCut.erase_id (to_scaffold_rows ra)
+       = Proofs.TwoPieceCut.orient s1 (map Proofs.TwoPieceCut.erase_id pr ++ [RF (Proofs.TwoPieceCut.cut_left f (k - Sp))])
+    /\ map Proofs.TwoPieceCut.erase_id (to_scaffold_rows rb)
+       = Proofs.TwoPieceCut.orient s2 (RF (Proofs.TwoPieceCut.cut_right f (k - Sp)) :: map Proofs.TwoPieceCut.erase_id po)
+    /\ (o_name ra = name /\ o_orig ra = Some p1 /\ o_start ra = 1 /\ o_end ra = k)
+    /\ (o_name rb = name /\ o_orig rb = Some p2 /\ o_start rb = k+1 /\ o_end rb = rows_len rows).
+Proof. exact Proofs.TwoPieceCut.two_piece_cut. Qed.
+Print Assumptions C02_two_piece_cut.
+
+(* non-vacuity: texel 7/2, a reverse-strand contig between gaps cut at 60, the
+   first piece presented reversed -- obtained by applying the theorem *)
+Theorem C02_two_piece_cut_instance : Proofs.TwoPieceCut.instance_statement.
+Proof. exact Proofs.TwoPieceCut.two_piece_cut_instance_by_theorem. Qed.
+Print Assumptions C02_two_piece_cut_instance.
+
+(* the margin of three error lengths is sharp: one base less on either side and
+   the contig goes whole to one piece, no cut is made (by computation) *)
+Theorem C02_margin_sharp_left :
+  rows_len Proofs.TwoPieceCut.sh_pre + 3 * error_length (7, 2) = 31 + 1
+  /\ 31 + 3 * error_length (7, 2) <= rows_len Proofs.TwoPieceCut.sh_pre + f_len Proofs.TwoPieceCut.sh_f
+  /\ exists rs ra rb,
+    remap_to_input repaired Proofs.TwoPieceCut.ex_dg (s "SUPER_") (7, 2)
+       [(s "scaffold_1", Proofs.TwoPieceCut.sh_pre ++ RF Proofs.TwoPieceCut.sh_f :: Proofs.TwoPieceCut.sh_post)]
+       (Proofs.TwoPieceCut.ex_ptx 31 150 1 1) = Ok rs
+    /\ b_cuts (rs_b rs) = 0
+    /\ mapM (get_ovr (b_store (rs_b rs))) (b_added (rs_b rs)) = Ok [ra; rb]
+    /\ map Proofs.TwoPieceCut.erase_id (to_scaffold_rows ra) = [Proofs.TwoPieceCut.ex_F "ctg1" 1 20 1]
+    /\ map Proofs.TwoPieceCut.erase_id (to_scaffold_rows rb)
+       = [Proofs.TwoPieceCut.ex_F "ctg2" 101 200 1; Proofs.TwoPieceCut.ex_F "ctg3" 1 30 1].
+Proof. exact Proofs.TwoPieceCut.margin_sharp_left. Qed.
+Print Assumptions C02_margin_sharp_left.
 
 (* error length = 1 + floor(bp per texel): strictly above the texel size, by at most one *)
 Theorem C02_error_length_spec : forall n d, 0 <= n -> 0 < d ->
